@@ -106,13 +106,15 @@ theorem dense_noTrail (L : List Nat) : noTrail (L.map some) = true := by
 theorem default_not_fork : (default : NodeD).isFork = false := by decide +kernel
 
 /-! ### one iteration -/
-theorem densifyNode_dens (nn : NNet) (w : WF nn) (v : Nat) : Dens nn (densNN nn [v]) (fun x => x = v) ∧ WF (densNN nn [v]) := by
+theorem densifyNode_densM (nn : NNet) (w : WFm nn) (v : Nat) : Dens nn (densNN nn [v]) (fun x => x = v) ∧ WFm (densNN nn [v]) ∧
+    (∀ i, noTrail (nn.net.node i).ins = true ∧ noTrail (nn.net.node i).outs = true →
+      noTrail ((densNN nn [v]).net.node i).ins = true ∧ noTrail ((densNN nn [v]).net.node i).outs = true) := by
   by_cases hcond : ((nn.net.node v).isFork && (nn.net.node v).outs.any (·.isNone)) = true
   rotate_left
   · have e : densNN nn [v] = nn := by
       simp only [densNN, List.foldl_cons, List.foldl_nil, densifyNode, hcond]
       rfl
-    rw [e]; exact ⟨Dens.refl _ _, w⟩
+    rw [e]; exact ⟨Dens.refl _ _, w, fun _ h => h⟩
   · have hF : (nn.net.node v).isFork = true := by
       simp only [Bool.and_eq_true] at hcond; exact hcond.1
     have hv : v < nn.net.nodes.size := by
@@ -140,7 +142,7 @@ theorem densifyNode_dens (nn : NNet) (w : WF nn) (v : Nat) : Dens nn (densNN nn 
       intro y; rw [e]; rfl
     have hOin : ∀ k l, O.getD k none = some l → ∃ k', (nn.net.node v).outs.getD k' none = some l :=
       fun k l hk => (dense_getD_iff _ l).mp ⟨k, hk⟩
-    have hOnd : PinNodup O := dense_pinNodup _ (w.toWFm.outs_nodup v hv)
+    have hOnd : PinNodup O := dense_pinNodup _ (w.outs_nodup v hv)
     have hfields := fun y => renumberDpins_fields O nn.net.lines 0 y
     -- a line not driven by `v` keeps its record
     have hother : ∀ y, (nn.net.line y).driver ≠ v → (densNN nn [v]).net.line y = nn.net.line y := by
@@ -175,10 +177,18 @@ theorem densifyNode_dens (nn : NNet) (w : WF nn) (v : Nat) : Dens nn (densNN nn 
         by_cases hd : (nn.net.line l).driver = v
         · right; rw [hd]; exact hF
         · left; rw [hother l hd]
-    refine ⟨hD, ?_⟩
+    refine ⟨hD, ?_, ?_⟩
+    rotate_left
+    · intro i hi
+      rw [hnode]
+      by_cases ei : i = v
+      · subst ei
+        simp only [if_true]
+        exact ⟨hi.1, dense_noTrail _⟩
+      · rw [if_neg ei]; exact hi
     have hsz : (densNN nn [v]).net.nodes.size = nn.net.nodes.size := hD.nsize
     have hlsz : (densNN nn [v]).net.lines.size = nn.net.lines.size := hD.lsize
-    refine ⟨by rw [hD.names, hsz]; exact w.names, ?_, ?_, ?_, ?_, ?_, ?_⟩
+    refine ⟨by rw [hD.names, hsz]; exact w.names, ?_, ?_, ?_, ?_, ?_⟩
     · rw [keys_congr nn (densNN nn [v]) hD.names hsz hD.kind]; exact w.nodup
     · intro i hi; rw [hsz]; exact w.io i (by rw [← hD.io]; exact hi)
     · intro l hl
@@ -214,27 +224,27 @@ theorem densifyNode_dens (nn : NNet) (w : WF nn) (v : Nat) : Dens nn (densNN nn 
         have hd : (nn.net.line l).driver ≠ v := by rw [a2]; exact ei
         rw [hother l hd]
         exact ⟨by rw [hlsz]; exact a1, a2, a3⟩
-    · intro i hi
-      rw [hsz] at hi
-      rw [hnode]
-      by_cases ei : i = v
-      · subst ei
-        simp only [if_true]
-        exact ⟨(w.trail i hi).1, dense_noTrail _⟩
-      · rw [if_neg ei]; exact w.trail i hi
+
+/-- the whole loop (circuits well-formed up to trailing `None`s) -/
+theorem densNN_densM : ∀ (vs : List Nat) (nn : NNet), WFm nn → Dens nn (densNN nn vs) (fun x => x ∈ vs) ∧ WFm (densNN nn vs) ∧
+    (∀ i, noTrail (nn.net.node i).ins = true ∧ noTrail (nn.net.node i).outs = true →
+      noTrail ((densNN nn vs).net.node i).ins = true ∧ noTrail ((densNN nn vs).net.node i).outs = true)
+  | [], nn, w => ⟨Dens.refl _ _, w, fun _ h => h⟩
+  | v :: vs, nn, w => by
+    obtain ⟨d1, w1, t1⟩ := densifyNode_densM nn w v
+    obtain ⟨d2, w2, t2⟩ := densNN_densM vs (densNN nn [v]) w1
+    rw [densNN_cons]
+    exact ⟨(d1.trans d2).weaken (fun x hx => by rcases hx with hx | hx <;> simp [hx]), w2, fun i hi => t2 i (t1 i hi)⟩
 
 /-- the whole loop -/
-theorem densNN_dens : ∀ (vs : List Nat) (nn : NNet), WF nn → Dens nn (densNN nn vs) (fun x => x ∈ vs) ∧ WF (densNN nn vs)
-  | [], nn, w => ⟨Dens.refl _ _, w⟩
-  | v :: vs, nn, w => by
-    obtain ⟨d1, w1⟩ := densifyNode_dens nn w v
-    obtain ⟨d2, w2⟩ := densNN_dens vs (densNN nn [v]) w1
-    rw [densNN_cons]
-    exact ⟨(d1.trans d2).weaken (fun x hx => by rcases hx with hx | hx <;> simp [hx]), w2⟩
+theorem densNN_dens (vs : List Nat) (nn : NNet) (w : WF nn) : Dens nn (densNN nn vs) (fun x => x ∈ vs) ∧ WF (densNN nn vs) := by
+  obtain ⟨d, wm, t⟩ := densNN_densM vs nn w.toWFm
+  refine ⟨d, wm.names, wm.nodup, wm.io, wm.back, wm.fwdIn, wm.fwdOut, fun i hi => ?_⟩
+  exact t i (w.trail i (by rw [← d.nsize]; exact hi))
 
 /-! ### consequences -/
 section cons
-variable {a b : NNet} {V : Nat → Prop} (d : Dens a b V) (w : WF a)
+variable {a b : NNet} {V : Nat → Prop} (d : Dens a b V) (w : WFm a)
 include d w
 
 /-- the circuit before embeds into the circuit after, with the identity maps -/
